@@ -4,7 +4,6 @@ CONSTANTS
 SPECIFICATION TSpecD
 INVARIANT TInv_Enumerates
 INVARIANT TInv_Reverse
-INVARIANT TInv_Init
 CONSTRAINT Reach
 POSTCONDITION Post
 CHECK_DEADLOCK FALSE
